@@ -381,6 +381,21 @@ class Resource:
         self.n = 0
 
 
+class QueueLike:
+    """A bound target that is a callable object with, besides __call__, a method named `queue` of its own (a mock, a
+    recorder): what is bound is the callable, so the events must arrive through __call__."""
+
+    def __init__(self, log):
+        self.log = log
+        self.queued = []
+
+    def __call__(self, e):
+        self.log.append(ev_value(e))
+
+    def queue(self, *a, **k):
+        self.queued.append((a, k))
+
+
 class Mailbox:
     """A bound target given as the bound method of an object that only the binding keeps alive."""
 
@@ -510,13 +525,15 @@ class Scenario:
             self.calls[lid] = []
             # targets of several kinds: a callable object; a plain function; the bound method of an object that nothing
             # else refers to (a client writes `interp.bind(Mailbox(log).deliver)`)
-            k3 = lid % 3
+            k3 = lid % 4
             if k3 == 0:
                 fn = EqCallable(self.calls[lid])
             elif k3 == 1:
                 fn = (lambda log: (lambda e: log.append(ev_value(e))))(self.calls[lid])
-            else:
+            elif k3 == 2:
                 fn = Mailbox(self.calls[lid]).deliver
+            else:
+                fn = QueueLike(self.calls[lid])      # a callable that also happens to have a method called `queue`
             obj = self.interp.bind(fn)
             del fn
         elif kind == 'interp':
